@@ -798,15 +798,22 @@ class LaplaceTransformInversionMethods(object):
 
         # determine the vector of Laplace-space parameter
         # needed for the requested method and desired time
-        rule.calc_laplace_parameter(t,**kwargs)
+        # The rules raise ctx.dps in calc_laplace_parameter and set it back in
+        # calc_time_domain_solution; restore the *bit* precision of the caller
+        # (dps -> prec -> dps does not round-trip) and do so on every exit.
+        prec = ctx.prec
+        try:
+            rule.calc_laplace_parameter(t,**kwargs)
 
-        # compute the Laplace-space function evalutations
-        # at the required abscissa.
-        fp = [f(p) for p in rule.p]
+            # compute the Laplace-space function evalutations
+            # at the required abscissa.
+            fp = [f(p) for p in rule.p]
 
-        # compute the time-domain solution from the
-        # Laplace-space function evaluations
-        return rule.calc_time_domain_solution(fp,t)
+            # compute the time-domain solution from the
+            # Laplace-space function evaluations
+            return rule.calc_time_domain_solution(fp,t)
+        finally:
+            ctx.prec = prec
 
     # shortcuts for the above function for specific methods
     def invlaptalbot(ctx, *args, **kwargs):
